@@ -275,6 +275,42 @@ for name,kw in RC.items():
     if name in ('max_satisfying','min_satisfying'): t=r6(t)
     rf.append(inject(t,**kw))
 out.append('impl Range {\n'+'\n\n'.join(rf)+'\n}')
+
+# ---------------- desugaring closures (R5) ----------------
+def closure_match(src, fn_header_re, marker):
+    body=impl_body(src,fn_header_re)
+    i=body.index(marker); j=body.index('match',i); k=body.index('{',j); e=match_brace(body,k)
+    return body[j:e]
+caret_m=closure_match(RNG,r'^fn caret<','|parsed| match parsed')
+partial_m=closure_match(RNG,r'^fn partial<','|partial| match partial')
+prim_m=closure_match(RNG,r'^fn primitive<','|parsed| match parsed')
+tilde_m=closure_match(RNG,r'^fn tilde<','|parsed| match parsed')
+hbody=impl_body(RNG,r'^fn hyphen<')
+hy_text=hbody[hbody.index('let upper = match upper'):hbody.index('Ok(bounds)')]
+mac=item(LIB,r'^macro_rules! impl_from_unsigned_for_version')
+i0=mac.index('$(', mac.index('=>')); fbody=mac[i0+2:mac.rindex(')+')].replace('$t','u64')
+fbody=re.sub(r'fn from\((\([a-z_, ]+\)): (\([a-z0-9, ]+\))\) -> Self \{', lambda m: f'fn from(arg: {m.group(2)}) -> (r: Self)\n ensures FROMENS{len(m.group(1).split(","))}\n {{\n let {m.group(1)} = arg;', fbody)
+fbody=fbody.replace('FROMENS3','key(r) == k3(arg.0 as int, arg.1 as int, arg.2 as int), r.build@.len() == 0')
+fbody=fbody.replace('FROMENS4','key(r).major == arg.0, key(r).minor == arg.1, key(r).patch == arg.2, key(r).pre =~= seq![Identifier::Numeric(arg.3)], r.build@.len() == 0')
+out.append("""impl FromSpecImpl<(u64, u64, u64)> for Version { open spec fn obeys_from_spec() -> bool { false } open spec fn from_spec(v: (u64, u64, u64)) -> Self { arbitrary() } }
+impl FromSpecImpl<(u64, u64, u64, u64)> for Version { open spec fn obeys_from_spec() -> bool { false } open spec fn from_spec(v: (u64, u64, u64, u64)) -> Self { arbitrary() } }
+impl FromSpecImpl<Partial> for Version { open spec fn obeys_from_spec() -> bool { false } open spec fn from_spec(v: Partial) -> Self { arbitrary() } }
+""")
+out.append(fbody)
+out.append('impl From<Partial> for Version {\n'+inject(fn_in_impl(RNG,r'^impl From<Partial> for Version \{','from'),ret='r',contract="    ensures r.major == (match partial.major { Some(x) => x, None => 0 }), r.minor == (match partial.minor { Some(x) => x, None => 0 }), r.patch == (match partial.patch { Some(x) => x, None => 0 }), r.pre_release == partial.pre_release, r.build == partial.build")+'\n}')
+HINT="""{
+ broadcast use group_k_order, group_sets;
+ proof { reveal(cut_cmp);
+        assert forall|s: Seq<Identifier>| #![trigger s.len()] s.len() == 1 && s[0] == Identifier::Numeric(0) implies s == pre0() by { assert(s =~= pre0()); }
+        assert forall|s: Seq<Identifier>| #![trigger s.len()] s.len() == 0 implies s == Seq::<Identifier>::empty() by { assert(s =~= Seq::<Identifier>::empty()); }
+ }
+    """
+out.append('fn caret_desugar(parsed: Partial) -> (r: Option<BoundSet>)\n'+P('contract_caret.rs')+HINT+caret_m+'\n}\n')
+out.append('fn primitive_desugar(parsed: (Operation, Partial)) -> (r: Option<BoundSet>)\n'+P('contract_primitive.rs')+HINT+'use Operation::*;\n'+prim_m+'\n}\n')
+out.append('fn tilde_desugar(parsed: (Option<&str>, Partial)) -> (r: Option<BoundSet>)\n'+P('contract_tilde.rs')+HINT+tilde_m+'\n}\n')
+out.append('fn hyphen_desugar(lower: Option<Partial>, upper: Partial) -> (r: Option<BoundSet>)\n'+P('contract_hyphen.rs')+HINT+hy_text+'\n bounds\n}\n')
+out.append('fn partial_desugar(partial: Partial) -> (r: Option<BoundSet>)\n'+P('contract_partial.rs')+HINT+partial_m+'\n}\n')
+
 out.append('''
 // A10: the formatting machinery returns without panicking; nothing is assumed about its result
 pub assume_specification<'a>[ std::fmt::Formatter::<'a>::write_fmt ](f: &mut std::fmt::Formatter<'a>, args: std::fmt::Arguments<'_>) -> (r: Result<(), std::fmt::Error>);
